@@ -224,6 +224,11 @@ func (c *connection) onProcess(onConnect OnConnect, onRequest OnRequest) (proces
 			verifPoint(vpOnConnectBeforeUnlock, c, 0)
 			c.unlock(connecting)
 			verifPoint(vpOnConnectAfterUnlock, c, 0)
+			if !c.IsActive() {
+				// closed after the check above while we still held the connecting lock: the closer's
+				// onDisconnect could not take that lock and left OnDisconnect to us
+				c.onDisconnect()
+			}
 		}
 	START:
 		verifPoint(vpProcessStart, c, 0)
